@@ -31,7 +31,7 @@ FAMS = ["single:conv@8", "single:dw@8", "single:maxpool@8", "single:avgpool@8", 
         "single:mean_axis@8", "single:pool_big@8", "single:conv_stride_asym@8", "single:squeeze_expand@8", "single:ew16",
         "single:concat_hw@8", "single:pad_conv@8", "single:fc_batch@8", "single:tconv_var", "single:resize_x@8", "single:ew_rank@8",
         "single:conv_big_kernel@8", "single:pool_then_ew@8",
-        "single:splitv@8", "single:slice_op@8", "single:unpack_pack@8", "single:sqdiff@8", "single:quant_chain", "single:softmax@8", "single:softmax@8"]
+        "single:splitv@8", "single:slice_op@8", "single:unpack_pack@8", "single:sqdiff@8", "single:quant_chain", "single:softmax@8", "single:softmax@8", "single:argmax@8"]
 if os.environ.get("VERIF_C01_FAMS"):        # development aid: restrict the generated part to some families
     FAMS = os.environ["VERIF_C01_FAMS"].split(",")
 
